@@ -10,9 +10,9 @@ import (
 	"encoding/binary"
 	"fmt"
 	"hash/fnv"
-	"strings"
 	"math/rand"
 	"net"
+	"strings"
 	"sync"
 	"sync/atomic"
 	"time"
@@ -134,16 +134,16 @@ func installSink() {
 // ---------------------------------------------------------------- scripted server
 
 type behaviour struct {
-	delay   time.Duration
-	drop    bool
-	dup     bool
-	unsolic int           // extra replies for qid+1..qid+k with fresh tokens
-	abort   bool          // tcp: close the connection instead of replying
-	split   bool          // tcp: write the reply in two segments
-	tc      bool          // set TC in the reply
-	garbage bool          // reply with undecodable bytes
-	rcode   int
-	partial bool // tcp: send half a frame then stall
+	delay      time.Duration
+	drop       bool
+	dup        bool
+	unsolic    int  // extra replies for qid+1..qid+k with fresh tokens
+	abort      bool // tcp: close the connection instead of replying
+	split      bool // tcp: write the reply in two segments
+	tc         bool // set TC in the reply
+	garbage    bool // reply with undecodable bytes
+	rcode      int
+	partial    bool // tcp: send half a frame then stall
 	closeAfter bool // tcp: close the connection right after the reply (stale pooled connection)
 }
 
@@ -188,24 +188,40 @@ type server struct {
 
 func newServer(name string, sc script, udp, tcp bool) *server {
 	s := &server{name: name, sc: sc}
-	var port int
-	if udp {
-		uc, err := net.ListenUDP("udp", &net.UDPAddr{IP: net.IPv4(127, 0, 0, 1)})
-		if err != nil {
-			panic(err)
+	for try := 0; ; try++ {
+		var port int
+		var uc *net.UDPConn
+		if udp {
+			var err error
+			uc, err = net.ListenUDP("udp", &net.UDPAddr{IP: net.IPv4(127, 0, 0, 1)})
+			if err != nil {
+				panic(err)
+			}
+			port = uc.LocalAddr().(*net.UDPAddr).Port
+			s.addr = uc.LocalAddr().String()
+		}
+		if tcp {
+			l, err := net.Listen("tcp", fmt.Sprintf("127.0.0.1:%d", port))
+			if err != nil {
+				// the TCP port with the UDP socket's number is taken (ephemeral ports of outgoing connections)
+				if uc != nil {
+					uc.Close()
+				}
+				if try > 30 {
+					panic(err)
+				}
+				continue
+			}
+			s.tl = l
+			s.addr = l.Addr().String()
 		}
 		s.uc = uc
-		port = uc.LocalAddr().(*net.UDPAddr).Port
-		s.addr = uc.LocalAddr().String()
+		break
+	}
+	if s.uc != nil {
 		go s.serveUDP()
 	}
-	if tcp {
-		l, err := net.Listen("tcp", fmt.Sprintf("127.0.0.1:%d", port))
-		if err != nil {
-			panic(err)
-		}
-		s.tl = l
-		s.addr = l.Addr().String()
+	if s.tl != nil {
 		go s.serveTCP()
 	}
 	return s
